@@ -64,6 +64,7 @@ def check(prog, rep):
     rep.section(_index_maps, prog, rep)
     rep.section(_identity, prog, rep)
     rep.section(_memo_and_buffers, prog, rep)
+    rep.section(_block_symmetry, prog, rep)
     rep.expect_min("R11.1", 40)
     rep.expect_min("R11.2", 14)
     rep.expect_min("R11.3", 10)
@@ -741,6 +742,62 @@ def _element_names(prog, rep, vv):
         rep.ob("R11.3", "VectorVariable.__init__", ok, f"element {idx} is named name[{idx}] for {idx} in range(size)" if ok else f"vector elements are named `{shown}`, not name[{idx}]: indexing, slicing and the solution's name-keyed values address other elements than NumPy's x[{idx}]", loc=f"{init.module.rel}:{c.lineno}", detail="element-names", robust=True)
     if not found:
         rep.undecided("VectorVariable.__init__: no Variable(...) construction over range(size) found")
+
+
+def _block_symmetry(prog, rep):
+    """The `symmetric` flag tells get_variables() (and everything built on it: Problem.variables, MatrixSum rows) that
+    cell [i][j] and cell [j][i] hold the same Variable, so only the upper triangle is listed.  That is true of a matrix
+    created with symmetric=True and of its transpose -- and of a sub-block only when it is a PRINCIPAL block (same row
+    and column selection).  A view constructor that sets the flag for a block because it is square (or because the parent
+    has it) makes the variables of the block's lower triangle disappear."""
+    MV = prog.cls("MatrixVariable")
+    n = 0
+    for m in MV.methods.values():
+        news = [c for c in calls(m.node) if (dotted(c.func) or "").endswith("__new__")]
+        if not news or m.name == "__init__":
+            continue
+        for st in walk_local(m.node, include_self=False):
+            if not (isinstance(st, ast.Assign) and isinstance(st.targets[0], ast.Attribute) and st.targets[0].attr == "symmetric"):
+                continue
+            n += 1
+            v = st.value
+            construct = f"MatrixVariable.{m.name}"
+            if isinstance(v, ast.Constant) and v.value is False:
+                rep.ob("R11.4", construct, True, "a view built from a block of cells is never flagged symmetric (every cell is listed)", loc=f"{m.module.rel}:{st.lineno}", detail="block-symmetry", robust=True)
+                continue
+            if isinstance(v, ast.Attribute) and v.attr == "symmetric" and "transpose" in m.name:
+                rep.ob("R11.4", construct, True, "the transpose of a symmetric matrix is symmetric: the flag is copied", loc=f"{m.module.rel}:{st.lineno}", detail="block-symmetry", robust=True)
+                continue
+            if isinstance(v, ast.Name) and v.id in {a.arg for a in m.node.args.args + m.node.args.kwonlyargs}:
+                # the flag is a parameter: decided at the call sites
+                from ..inline import call_sites, bind_args
+                for c_fi, c_ in call_sites(prog, m, "optyx.core"):
+                    try:
+                        arg = bind_args(m.node, c_).get(v.id)
+                    except Exception:
+                        arg = None
+                    if arg is None or (isinstance(arg, ast.Constant) and arg.value is False):
+                        continue
+                    if isinstance(arg, ast.Attribute) and arg.attr == "symmetric":
+                        # the parent's flag copied as it is: right for a view of the WHOLE matrix (transpose, copy), wrong for a block
+                        if any(k in c_fi.name.lower() for k in ("transpose", "copy")) or c_fi.name == "T":
+                            rep.ob("R11.4", f"{construct}<-{c_fi.name}", True, "a view of the whole matrix keeps the parent's flag", loc=f"{c_fi.module.rel}:{c_.lineno}", detail="block-symmetry", robust=True)
+                            continue
+                        if c_fi.name != "__getitem__":
+                            rep.undecided(f"{construct}: {c_fi.name} copies the parent's symmetric flag into a view; whether that view covers the whole matrix is not decided")
+                            continue
+                    principal = any(isinstance(x, ast.Compare) and isinstance(x.ops[0], ast.Eq) and all(any(k in src(y) for k in ("row", "col")) for y in (x.left, x.comparators[0])) and "len(" not in src(x) for x in ast.walk(arg))
+                    if principal:
+                        rep.undecided(f"{construct}: `{src(arg)[:60]}` ({c_fi.name}) compares the row selection with the column selection; whether that establishes a principal block is not decided")
+                        continue
+                    rep.ob("R11.4", f"{construct}<-{c_fi.name}", False,
+                           f"{c_fi.name} builds a block view with symmetric=`{src(arg)[:60]}`: that does not require the block to be a PRINCIPAL block (same rows and columns), and an off-diagonal square block of a symmetric matrix is not symmetric -- "
+                           f"get_variables() then lists only its upper triangle, so the variables below the block's diagonal vanish from the problem",
+                           loc=f"{c_fi.module.rel}:{c_.lineno}", detail="block-symmetry", robust=True)
+                continue
+            rep.undecided(f"{construct}: the symmetric flag of the view is `{src(v)[:50]}`; not related to the selected rows / columns by this rule")
+    if n == 0:
+        rep.undecided("MatrixVariable: no view constructor assigns the symmetric flag (idiom not recognised)")
 
 
 def _memo_and_buffers(prog, rep):
